@@ -448,6 +448,20 @@ def _app_request(ctx: Ctx, R: RecvModel, E):
     if len(n3003) != 1 or (realm, "in-expr", "self._peer_routes", False) not in must_facts(g, at, n3003[0]):
         ctx.fail(cons, f.loc(), "a request for a realm this node does not serve is not answered "
                  "3003 (REALM_NOT_SERVED) exactly under `realm not in _peer_routes`")
+    # ... also for a realm that is not valid text: decoding it strictly raises, and the generic
+    # handler answers 5012 for what is simply a realm this node does not serve
+    cons_u = "_receive_app_request:3003#undecodable"
+    ctx.inst(cons_u)
+    if realm_defs:
+        from ..effects import effects_of as _eo3
+        ge3 = cfg_of(f, effects=_eo3(model))
+        rdn = [x for x in ge3.nodes if x.kind == "stmt"
+               and getattr(x.ast, "lineno", -1) == realm_defs[0].ast.lineno]
+        if rdn and "UnicodeDecodeError" in (rdn[0].raises or ()):
+            ctx.fail(cons_u, g.loc(realm_defs[0]), f"`{realm_defs[0].text(70)}` raises UnicodeDecodeError "
+                     f"for a Destination-Realm that is not valid UTF-8: the request is answered 5012 "
+                     f"by the generic error handler instead of 3003 (the realm is not one this node "
+                     f"serves)")
     cons = "_receive_app_request:3007"
     ctx.inst(cons)
     n3007 = [n for n in outcomes.get(APPUN, [])
